@@ -6,6 +6,7 @@
   the images of the original parents; pruned commit ↦ first parent's image) is
   Frrs/Props/C02Graph.lean over the command-level model.
 -/
+import Frrs.Proofs.Decimal
 import Frrs.Proofs.Stanza
 import Frrs.Proofs.Monotone
 import Frrs.Commit
@@ -257,5 +258,24 @@ theorem pruned_commit_writes_alias_or_nothing (s : FState) (e : CommitEnd) :
         · rw [← hz.2.1]; exact hem'
       · have hem' : ¬ resolveCanonical (recordZeroPair s).alias parentMark ∈ (recordZeroPair s).emitted := by simpa using hem
         exact Or.inl (by simp [hem', hz.1])
+
+/-! ### marks survive rendering and re-reading (for every mark that fits `u32`) -/
+
+/-- a `mark :N` line rendered by the filter is read back as `N` -/
+theorem mark_line_round_trip (n : Nat) (hn : n ≤ u32Max) :
+    parseMarkLine (b!"mark :" ++ natToDec n ++ [B.lf]) = some n := by
+  have hs : stripPrefix? (b!"mark :" ++ natToDec n ++ [B.lf]) b!"mark :" = some (natToDec n ++ [B.lf]) := by
+    simp [stripPrefix?]
+  simp only [parseMarkLine, hs]
+  exact satDigits_natToDec n [B.lf] hn (by intro b t h; simp only [List.cons.injEq] at h; rw [← h.1]; decide)
+
+/-- the parent line `from :N` that the filter writes for a re-parented commit (`renderParents`, `aliasAndReset`) is read
+    back — by the filter's own parser and, by the same grammar, by the importer — as mark `N` -/
+theorem from_line_round_trip (n : Nat) (hn : n ≤ u32Max) :
+    parseFromMark (b!"from :" ++ natToDec n ++ [B.lf]) = some n := by
+  have hs : stripPrefix? (b!"from :" ++ natToDec n ++ [B.lf]) b!"from " = some ([B.colon] ++ natToDec n ++ [B.lf]) := by
+    simp [stripPrefix?, B.colon]
+  simp only [parseFromMark, parseRefMark, hs]
+  simp [B.colon, satDigits_natToDec n [B.lf] hn (by intro b t h; simp only [List.cons.injEq] at h; rw [← h.1]; decide)]
 
 end Frrs.C02
